@@ -701,3 +701,61 @@ def _can_shape(ctx, R):
                 'every except clause in policy.authorize re-raises',
                 'swallows' if not has else 'ok', func=g, node=n,
                 nontrivial=False)
+
+
+def r166(ctx, R):
+    """The base rules carry deprecated (older, wider) check strings -
+    service_api was role:admin - which oslo.policy ORs into the new default
+    unless [oslo_policy] enforce_new_defaults is on.  The library default is
+    on; no code of the service may turn it (or enforce_scope) off: that
+    silently grants the reshaper to admin."""
+    prog = ctx.prog
+    OPTS = ('enforce_new_defaults', 'enforce_scope')
+    n = 0
+    bad = []
+    for f in list(prog.funcs):
+        for c in own_nodes(f.node):
+            if not isinstance(c, ast.Call):
+                continue
+            d = prog.dotted(f.module, c.func, f) or ''
+            if d.endswith('oslo_policy.opts.set_defaults'):
+                n += 1
+            for k in c.keywords:
+                if k.arg in OPTS and not (isinstance(
+                        k.value, ast.Constant) and k.value.value is True):
+                    bad.append((f, c, '%s=%s' % (k.arg, src(k.value))))
+            if c.args and isinstance(c.args[0], ast.Constant) and \
+                    c.args[0].value in OPTS and isinstance(
+                        c.func, ast.Attribute) and c.func.attr in (
+                            'set_default', 'set_override') and not (
+                        len(c.args) > 1 and isinstance(
+                            c.args[1], ast.Constant)
+                        and c.args[1].value is True):
+                bad.append((f, c, src(c)[:70]))
+    # module-level statements too (conf modules call set_defaults at
+    # import time)
+    for m in prog.modules.values():
+        for c in ast.walk(m.tree):
+            if isinstance(c, ast.Call):
+                for k in c.keywords:
+                    if k.arg in OPTS and not (isinstance(
+                            k.value, ast.Constant)
+                            and k.value.value is True) and not any(
+                                c is b[1] for b in bad):
+                        bad.append((None, c, '%s=%s' % (k.arg,
+                                                        src(k.value))))
+    R.ob('R16.6', 'policy-options:new-defaults-enforced', not bad,
+         'no code turns enforce_new_defaults / enforce_scope off (the '
+         'deprecated admin rule would be ORed into service_api)',
+         ['%s line %d: %s' % (f.qname if f else 'module level', c.lineno, t)
+          for f, c, t in bad] or '%d set_defaults call(s)' % n,
+         func=bad[0][0] if bad else None, node=bad[0][1] if bad else None)
+    R.count('R16.6', n, 3)
+
+
+_run_c16 = run
+
+
+def run(ctx, R):
+    _run_c16(ctx, R)
+    r166(ctx, R)
